@@ -315,25 +315,44 @@ Definition fold_iter (f : fstate) : res iter_out :=
       | Return n f => Ok (Ret n f)
       end.
 
+(* what happens after the loop: tokenVec[left] = lastComment, cap at maxTokens *)
+Definition fold_finish (f : fstate) : res (Z * fstate) :=
+  let l := f_left f in
+  '(w, l) <- (if (l <? c_max_tokens) && cat_is (f_last f) b_sqli_token_type_comment then
+                (* tokenVec[left] = lastComment with left = pos: append *)
+                if l =? wlen (f_win f) then Ok (f_win f ++ [f_last f], l + 1)
+                else (w' <- wset "fold:tokenVec[left]=lastComment" (f_win f) l (f_last f) ;;
+                      Ok (w', l + 1))
+              else Ok (f_win f, l)) ;;
+  let l := if c_max_tokens <? l then c_max_tokens else l in
+  Ok (l, mkF (f_s f) w l (f_more f) (f_last f)).
+
+(* at most k iterations of the main loop: inl = still running *)
+Fixpoint fold_steps (k : nat) (f : fstate) : res (fstate + Z * fstate) :=
+  match k with
+  | O => Ok (inl f)
+  | S k' =>
+      r <- fold_iter f ;;
+      match r with
+      | Again f => fold_steps k' f
+      | Ret n f => Ok (inr (n, f))
+      | Break f => (x <- fold_finish f ;; Ok (inr x))
+      end
+  end.
+
+Definition fold_chunk : nat := 256.
+
+(* the main loop; the fuel counts chunks of fold_chunk iterations, so that a
+   fuel linear in the input length covers the (linear, with a larger constant)
+   number of iterations without building a large unary number *)
 Fixpoint fold_loop (fuel : nat) (f : fstate) : res (Z * fstate) :=
   match fuel with
   | O => OutOfFuel
   | S fuel' =>
-      r <- fold_iter f ;;
+      r <- fold_steps fold_chunk f ;;
       match r with
-      | Again f => fold_loop fuel' f
-      | Ret n f => Ok (n, f)
-      | Break f =>
-          (* after the loop *)
-          let l := f_left f in
-          '(w, l) <- (if (l <? c_max_tokens) && cat_is (f_last f) b_sqli_token_type_comment then
-                        (* tokenVec[left] = lastComment with left = pos: append *)
-                        if l =? wlen (f_win f) then Ok (f_win f ++ [f_last f], l + 1)
-                        else (w' <- wset "fold:tokenVec[left]=lastComment" (f_win f) l (f_last f) ;;
-                              Ok (w', l + 1))
-                      else Ok (f_win f, l)) ;;
-          let l := if c_max_tokens <? l then c_max_tokens else l in
-          Ok (l, mkF (f_s f) w l (f_more f) (f_last f))
+      | inl f => fold_loop fuel' f
+      | inr x => Ok x
       end
   end.
 
@@ -350,7 +369,7 @@ Fixpoint skip_loop (fuel : nat) (s : sqlst) (cur : token) : res (bool * token * 
       else if (more : bool) then skip_loop fuel' s t else Ok (more, t, s)
   end.
 
-Definition fold_fuel (s : sqlst) : nat := (8 * S (List.length (input s)) + 64)%nat.
+Definition fold_fuel (s : sqlst) : nat := S (S (S (List.length (input s)))).
 
 (* func (s *sqliState) fold() int : (returned count, tokenVec[0..count), state) *)
 Definition fold (s : sqlst) : res (list token * sqlst) :=
